@@ -12,7 +12,7 @@
    number of such contributions, counted with multiplicity. *)
 From Coq Require Import List NArith Arith Bool.
 From Verif.Common Require Import Labels Prefix.
-From Verif.C04 Require Import Model Spec Sets Refs Counts Proofs State Inv Main View ViewThms MeetsSpec Addr.
+From Verif.C04 Require Import Model Spec Sets Refs Counts Proofs State Inv Main View ViewThms MeetsSpec Addr Trie.
 Import ListNotations.
 
 (* Each member once however many endpoints contribute it: over any history, any iteration order and
@@ -138,6 +138,38 @@ Theorem c04_model_meets_spec : forall sel_of sup shuffle prune_ep prune_set ops,
   ok_trace sup ops (snd (run sup shuffle prune_ep prune_set empty_state ops)) = true.
 Proof. exact c04_model_meets_spec_proof. Qed.
 Print Assumptions c04_model_meets_spec.
+
+(* ---- the overlap suppressor on the REAL trie (C36's model of felix/ip/trie.go; Trie.v): memberDeduplicator.Add
+   / Remove written with Covers / Update / ClosestDescendants / Delete on one trie per address family return, for
+   well-formed tries, exactly what the set-of-stored-prefixes suppressor of Model.v returns under SOME order [sh] of
+   the masked CIDRs (every theorem above holds for every such order), ClosestDescendants never runs out of fuel,
+   and the refinement relation Rts (same stored prefixes, tries well formed) is kept. ---- *)
+Theorem c04_trie_add_refines : forall T S c T' b l,
+  Rts T S -> wfc c -> trie_add T c = (T', b, l) ->
+  exists sh, perm_ok sh /\ Rts T' (fst (fst (sup_add true sh S c))) /\ sup_add true sh S c = (t_update S c, b, l).
+Proof. exact trie_add_sim. Qed.
+Print Assumptions c04_trie_add_refines.
+
+Theorem c04_trie_remove_refines : forall T S c T' b l,
+  Rts T S -> wfc c -> In c S -> trie_remove T c = (T', b, l) ->
+  exists sh, perm_ok sh /\ Rts T' (fst (fst (sup_remove true sh S c))) /\ sup_remove true sh S c = (t_delete S c, b, l).
+Proof. exact trie_remove_sim. Qed.
+Print Assumptions c04_trie_remove_refines.
+
+(* ... and so the events of onMemberAdded / onMemberRemoved over the trie are those of the model. *)
+Theorem c04_trie_on_added_refines : forall sid T s m T' evs,
+  Rts T (s_trie s) -> wfm m -> on_added_t sid T m = (T', evs) ->
+  exists sh, perm_ok sh /\ snd (on_added true sh sid s m) = evs /\
+             Rts T' (s_trie (fst (on_added true sh sid s m))).
+Proof. exact on_added_trie_sim. Qed.
+Print Assumptions c04_trie_on_added_refines.
+
+Theorem c04_trie_on_removed_refines : forall sid T s m T' evs,
+  Rts T (s_trie s) -> wfm m -> (forall c, m = MCidr c -> In c (s_trie s)) -> on_removed_t sid T m = (T', evs) ->
+  exists sh, perm_ok sh /\ snd (on_removed true sh sid s m) = evs /\
+             Rts T' (s_trie (fst (on_removed true sh sid s m))).
+Proof. exact on_removed_trie_sim. Qed.
+Print Assumptions c04_trie_on_removed_refines.
 
 (* Named-port members always carry a real protocol (TCP, UDP or SCTP), never "none". *)
 Theorem c04_named_port_protocol : forall e, protocol_from e <> P_NONE.
